@@ -360,5 +360,74 @@ class TranslateSensorCovariance(Contract):
             P.oblige(f"{pre}.value_is_the_noise_matrix_entry", z3.BoolVal(False), note="statement value is not a number")
 
 
+class TranslateControlCovariance(Contract):
+    """cpp.ExtendedKalmanFilter._translate_control_covariance(covariance)
+    requires the process noise is given per control by name (Symbol keys only, the form the validation accepts: no (a, b) pair keys).
+    ensures  for every (i, j): the statement for cell (i, j) is emitted with value noise[AU[i]] when i = j and it is given, else 0;
+             when i != j a second statement assigns the mirrored cell (j, i) the same value (0) - so every cell is assigned and every
+             assignment to a cell carries that cell's specified value, whatever the emission order."""
+
+    assignable = ()
+    key = "formak.cpp:ExtendedKalmanFilter._translate_control_covariance"
+    prefix = "C02.cxxgen.ExtendedKalmanFilter._translate_control_covariance"
+
+    def setup(self, I):
+        from pvc.symtheory import real_wrap
+
+        W = GenWorld(I, True)
+        P = I.path
+        cov = SDictV(P, "process_noise", Sym, z3.RealSort(), SymV, real_wrap)
+        return Call([W.generator(I, "ExtendedKalmanFilter"), cov], {}, W=W, cov=cov)
+
+    def post(self, I, call, outcome):
+        from pvc.interp import Flat2Seq, NestedYields
+        from pvc.sym import to_bool, to_real
+
+        P, pre, W, cov = I.path, self.prefix, call.W, call.cov
+        if outcome[0] == "raise":
+            P.oblige(f"{pre}.no_exception", z3.BoolVal(False), note=f"raises {outcome[1]}")
+            return
+        rv = outcome[1]
+        seq = rv.seq if isinstance(rv, GenV) else rv
+        ok = isinstance(seq, (NestedYields, Flat2Seq))
+        P.oblige(f"{pre}.yields_per_cell_statements", z3.BoolVal(ok), note=f"yielded value {type(seq).__name__}")
+        if not ok:
+            return
+        k = W.k
+        P.oblige(f"{pre}.dimensions", z3.And(to_int(seq.rows) == k, to_int(seq.cols) == k))
+        ys = seq.yields if isinstance(seq, NestedYields) else [(seq.cell, lambda i, j: True)]
+        i, j = z3.Int("i_any"), z3.Int("j_any")
+        rng = z3.And(i >= 0, i < k, j >= 0, j < k)
+        spec = lambda r, c: z3.If(z3.And(r == c, cov.has(W.AU(r))), cov.get(W.AU(r)), z3.RealVal(0))
+        covered = []
+        for n_y, (val, guard) in enumerate(ys):
+            el = val(i, j)
+            g = guard(i, j)
+            gz = to_bool(g) if not isinstance(g, bool) else z3.BoolVal(g)
+            okc = isinstance(el, tuple) and len(el) == 2 and isinstance(el[0], FmtV)
+            if not okc:
+                P.oblige(f"{pre}.statement{n_y}_shape", z3.BoolVal(False))
+                continue
+            parts = el[0].parts
+            skel = "".join(p if isinstance(p, str) else "{}" for p in parts)
+            holes = [p for p in parts if not isinstance(p, str)]
+            if skel != "covariance({}, {})" or len(holes) != 2:
+                P.oblige(f"{pre}.statement{n_y}_shape", z3.BoolVal(False), note=f"target text {skel}")
+                continue
+            r, c = to_int(holes[0]), to_int(holes[1])
+            try:
+                v = to_real(el[1])
+            except Exception:
+                P.oblige(f"{pre}.statement{n_y}_shape", z3.BoolVal(False), note="value is not a number")
+                continue
+            P.oblige(f"{pre}.statement{n_y}_targets_a_cell_of_the_matrix", z3.Implies(z3.And(rng, gz), z3.And(r >= 0, r < k, c >= 0, c < k)))
+            P.oblige(f"{pre}.statement{n_y}_carries_the_value_specified_for_its_cell", z3.Implies(z3.And(rng, gz), v == spec(r, c)), note="value = noise of the control NAMED for the row when on the diagonal, 0 elsewhere")
+            covered.append((gz, r, c))
+        # every cell (i, j) is assigned by some statement at some iteration: statement 0 at iteration (i, j) is unconditional
+        if covered:
+            g0, r0, c0 = covered[0]
+            P.oblige(f"{pre}.every_cell_is_assigned", z3.Implies(rng, z3.And(g0, r0 == i, c0 == j)))
+
+
 def contracts():
-    return [TranslateSensorCovariance(), TranslateStateModel(True), TranslateStateModel(False), TranslateSensorModel(), TranslateJacobian("process"), TranslateJacobian("control"), TranslateSensorJacobian()]
+    return [TranslateControlCovariance(), TranslateSensorCovariance(), TranslateStateModel(True), TranslateStateModel(False), TranslateSensorModel(), TranslateJacobian("process"), TranslateJacobian("control"), TranslateSensorJacobian()]
